@@ -439,9 +439,121 @@ bool c03_uci_transparency(Tape& t, Report& rep)
     return true;
 }
 
+// "Arbitrarily nested make/unmake sequences": a long game behind the root (its history matters: the root is a repeated
+// position) and a nest of several hundred plies made and taken back on the same object.  Whatever the position keeps about the
+// game (the history buffer behind the repetition answers) must survive a nest that is deeper than any search.
+bool c03_deep_nest(Tape& t, Report& rep)
+{
+    // (all sizes are drawn before the long game eats the tape; the rest of the case runs on the tape's extension stream)
+    int rootPlies = t.chance(2, 3) ? 150 + int(t.choose(271)) : 420 + int(t.choose(371));  // 150..420 mostly, else up to 790
+    const int depth = t.chance(2, 3) ? 380 + int(t.choose(221)) : 60 + int(t.choose(320));  // mostly 380..600 plies deep
+    t.extend = true;
+    gen::Root game = gen::long_game(t, &rep, rootPlies, rootPlies);
+    // end the game line with a shuffle so that the root has occurred before
+    {
+        ref::Pos P = game.cur;
+        for (int attempt = 0; attempt < 30; ++attempt)
+        {
+            std::vector<ref::Move> lm = ref::legal_moves(P);
+            if (lm.empty()) break;
+            ref::Move a = lm[t.choose(uint32_t(lm.size()))];
+            if (ref::lower(P.b[a.from]) == 'p' || ref::is_capture(P, a) || ref::is_castle(P, a)) continue;
+            ref::Pos Pa = ref::make(P, a);
+            std::vector<ref::Move> lb = ref::legal_moves(Pa);
+            if (lb.empty()) continue;
+            ref::Move b = lb[t.choose(uint32_t(lb.size()))];
+            if (ref::lower(Pa.b[b.from]) == 'p' || ref::is_capture(Pa, b) || ref::is_castle(Pa, b)) continue;
+            ref::Pos Pab = ref::make(Pa, b);
+            ref::Move ar{a.to, a.from, 0}, brv{b.to, b.from, 0};
+            std::vector<ref::Move> l1 = ref::legal_moves(Pab);
+            if (std::find(l1.begin(), l1.end(), ar) == l1.end()) continue;
+            ref::Pos Paba = ref::make(Pab, ar);
+            std::vector<ref::Move> l2 = ref::legal_moves(Paba);
+            if (std::find(l2.begin(), l2.end(), brv) == l2.end()) continue;
+            ref::Pos back = ref::make(Paba, brv);
+            if (ref::key4(back) != ref::key4(P) || back.half > 140) continue;
+            for (auto& m : {a, b, ar, brv}) game.moves.push_back(m);
+            game.cur = back;
+            break;
+        }
+    }
+    Position pos = br::replay(game);
+    const Snapshot rootSnap = snap(pos);
+    rep.decoded = "game of " + std::to_string(game.moves.size()) + " plies from the start position (root " + ref::to_fen(game.cur) + ", occurred before: " +
+                  (rootSnap.repeated ? "yes" : "no") + "), then a nest of " + std::to_string(depth) + " plies made and taken back";
+    std::vector<std::pair<Move, MoveInfo>> stack;
+    std::vector<std::pair<int, Snapshot>> marks;
+    for (int d = 0; d < depth; ++d)
+    {
+        br::EMoves em = br::engine_moves(pos);
+        if (em.raw.empty())
+        {
+            rep.cls("c03:deep_nest_ended_by_mate_or_stalemate");
+            break;
+        }
+        // A nest is a search-tree / perft line, not a game: it is not ended by the 75-move rule, but it stays below the 8-bit
+        // half-move clock.  To get deep, it keeps the material (quiet piece moves while the clock is low) and spends pawn moves
+        // and captures only to reset the clock.
+        auto irreversible = [&](Move mv) {
+            return castling(mv) == NO_CASTLING && (pos.piece_at(to(mv)) != NO_PIECE || make_piece_kind(pos.piece_at(from(mv))) == PAWN);
+        };
+        size_t idx = t.choose(uint32_t(em.raw.size()));
+        bool wantReset = pos.half_moves() >= 100;
+        for (size_t k = 0, n = em.raw.size(); k < n; ++k)
+        {
+            size_t j = (idx + k) % n;
+            if (irreversible(em.raw[j]) == wantReset)
+            {
+                idx = j;
+                break;
+            }
+        }
+        if (pos.half_moves() >= 200 && !irreversible(em.raw[idx]))
+        {
+            rep.cls("c03:deep_nest_ended_by_clock");
+            break;
+        }
+        if (d % 97 == 50) marks.push_back({d, snap(pos)});
+        Move m = em.raw[idx];
+        stack.push_back({m, pos.do_move(m)});
+    }
+    int reached = int(stack.size());
+    while (!stack.empty())
+    {
+        pos.undo_move(stack.back().first, stack.back().second);
+        stack.pop_back();
+        rep.eval();
+        if (!marks.empty() && marks.back().first == int(stack.size()))
+        {
+            std::string dd = snap_diff(marks.back().second, snap(pos));
+            if (!dd.empty())
+                return rep.fail("undo:deep_nest:" + dd.substr(0, dd.find_first_of("[,")), "after a nest taken back to level " + std::to_string(stack.size()) + " the position differs: " + dd + "\n " + rep.decoded);
+            marks.pop_back();
+        }
+    }
+    rep.cls("c03:deep_nest");
+    if (reached >= 400) rep.cls("c03:deep_nest_ge_400_plies");
+    if (rootSnap.repeated) rep.cls("c03:deep_nest_root_is_a_repeated_position");
+    rep.nontriv(fnv1a(rep.decoded));
+    std::string d = snap_diff(rootSnap, snap(pos));
+    if (!d.empty())
+        return rep.fail("undo:deep_nest:" + d.substr(0, d.find_first_of("[,")), "a nest of " + std::to_string(reached) + " plies was made and taken back; the root differs afterwards: " + d + "\n " + rep.decoded);
+    // the object must still be usable: one more move and back
+    br::EMoves em = br::engine_moves(pos);
+    if (!em.raw.empty())
+    {
+        MoveInfo mi = pos.do_move(em.raw[0]);
+        pos.undo_move(em.raw[0], mi);
+        std::string d2 = snap_diff(rootSnap, snap(pos));
+        if (!d2.empty()) return rep.fail("undo:deep_nest:" + d2.substr(0, d2.find_first_of("[,")), "after the nest one more move made and taken back changes the root: " + d2 + "\n " + rep.decoded);
+    }
+    return true;
+}
+
 bool prop_C03(Tape& t, Report& rep)
 {
     br::init_engine();
+    if (t.chance(1, 150)) return c03_deep_nest(t, rep);
     if (t.chance(1, 40)) return c03_uci_bracket(t, rep);
     if (t.chance(1, 40)) return c03_uci_transparency(t, rep);
     gen::Root root = gen::gen_root(t, &rep, 60);
